@@ -257,7 +257,9 @@ impl Pwhash {
         for s in hashed_password.split('$') {
             if s.is_empty() {
                 // skip
-            } else if s.starts_with("argon2") {
+            } else if pwhash.type_.is_none() && s.starts_with("argon2") {
+                // only the first such field names the algorithm: the base64 text
+                // of a salt or hash may itself begin with "argon2"
                 match s {
                     "argon2i" => pwhash.type_ = Some(PasswordHashAlgorithm::Argon2i13),
                     "argon2id" => pwhash.type_ = Some(PasswordHashAlgorithm::Argon2id13),
